@@ -14,11 +14,11 @@ CONSTANTS
   Users = {"lp1", "lp2"}
   Traders = {"t1"}
   Ranges <- MCRanges
-  LiqUnits = {640, 1280}
-  Amounts = {7, 100}
+  LiqUnits = {640}
+  Amounts = {100}
   StartGrowth <- MCStartGrowth
-  Limits <- MCLimits
-  Thresholds <- MCThresholds
+  Limits <- MCCovLimits
+  Thresholds <- MCVacuous
   MaxOps = 3
 VIEW view
 CHECK_DEADLOCK FALSE
